@@ -538,3 +538,23 @@ def exclusive(cfg, t, edge):
     a = cfg.reachable(t, labels=nonexc, start_labels=lambda lab: lab == edge)
     b = cfg.reachable(t, labels=nonexc, start_labels=lambda lab: lab == other)
     return [n for n in cfg.nodes if n in a and n not in b]
+
+
+def locals_from_attrs(unit, attrs, recv='self'):
+    """{attr: local name} for locals initialised as ``name = <recv>.<attr>`` (or in a tuple
+    assignment position-wise); the first such assignment per attribute"""
+    out = {}
+    for n in unit.own_nodes():
+        if not isinstance(n, ast.Assign) or len(n.targets) != 1:
+            continue
+        pairs = []
+        t, v = n.targets[0], n.value
+        if isinstance(t, ast.Tuple) and isinstance(v, ast.Tuple) and len(t.elts) == len(v.elts):
+            pairs = list(zip(t.elts, v.elts))
+        else:
+            pairs = [(t, v)]
+        for tt, vv in pairs:
+            if isinstance(tt, ast.Name) and isinstance(vv, ast.Attribute) and is_name(vv.value, recv) \
+                    and vv.attr in attrs and vv.attr not in out:
+                out[vv.attr] = tt.id
+    return out
